@@ -37,6 +37,10 @@ func mkTmpl(id uint16, names []string, ents []uint32) *expTmpl {
 	t.ref.ID = id
 	for i, n := range names {
 		ie, err := registry.GetInfoElement(n, ents[i])
+		if n == "verifFixedOctets8" {
+			// a user-defined enterprise element: octetArray with a fixed length of 8
+			ie, err = entities.NewInfoElement(n, 901, entities.OctetArray, ents[i], 8), nil
+		}
 		if err != nil {
 			panic(err)
 		}
@@ -56,7 +60,7 @@ type expSession struct {
 	nWrites int
 }
 
-func newExpSession(proto string, domain uint32, startSeq uint32, now time.Time) *expSession {
+func newExpSession(proto string, domain uint32, startSeq uint32, now time.Time, jsonMode ...bool) *expSession {
 	vsched.BeginSeq(now)
 	addr := "127.0.0.1:4739"
 	if proto == "tcp" {
@@ -64,7 +68,7 @@ func newExpSession(proto string, domain uint32, startSeq uint32, now time.Time) 
 			panic(err)
 		}
 	}
-	ep, err := exporter.InitExportingProcess(exporter.ExporterInput{CollectorAddress: addr, CollectorProtocol: proto, ObservationDomainID: domain, TempRefTimeout: 600})
+	ep, err := exporter.InitExportingProcess(exporter.ExporterInput{CollectorAddress: addr, CollectorProtocol: proto, ObservationDomainID: domain, TempRefTimeout: 600, SendJSONRecord: len(jsonMode) > 0 && jsonMode[0]})
 	if err != nil {
 		panic(err)
 	}
